@@ -6,6 +6,7 @@ import json, re, itertools
 import drive, vlib
 
 ALL_DEVS = ['DEV_PRF_B1', 'DEV_PRF_B4', 'DEV_SC_52_2', 'DEV_MPLS_C']
+DEV_FINDING = {'DEV_PRF_B1': 'F13', 'DEV_PRF_B4': 'F14', 'DEV_SC_52_2': 'F15', 'DEV_MPLS_C': 'F16'}
 GREG_CHECK = ['C01', 'C02', 'C04', 'C05', 'C06', 'C07', 'C09', 'C18']
 MEEK_CHECK = ['C01', 'C02', 'C04', 'C05', 'C07', 'C08', 'C09', 'C18']
 QPQ_CHECK = ['C01', 'C02', 'C04', 'C05', 'C07', 'C09', 'C18']
@@ -39,7 +40,7 @@ def tla(v):
 
 
 def mc_run(configs, nc=3, maxb=4, maxm=2, seatset=(1, 2), ties=None, wds=((),), unds=((),), devs=ALL_DEVS,
-           check=GREG_CHECK, export=0, liveness=False, workers=16, heap_mb=4096, timeout=3600, simulate=None, extra=()):
+           check=GREG_CHECK, export=0, liveness=False, devneutral=False, workers=16, heap_mb=4096, timeout=3600, simulate=None, extra=()):
     ties = ties if ties is not None else [tuple(range(1, nc + 1))]
     mc = ['---- MODULE MC ----', 'EXTENDS Droop',
           'MC_CONFIGS == ' + tla(set()) if not configs else 'MC_CONFIGS == {' + ', '.join(tla(c) for c in configs) + '}',
@@ -51,7 +52,7 @@ def mc_run(configs, nc=3, maxb=4, maxm=2, seatset=(1, 2), ties=None, wds=((),), 
           'MC_KNOWNCL == ' + tla(set('KNOWN_' + e['id'] for e in vlib.load_known() if e.get('kind') == 'finding')),
           '====']
     cfg = ['SPECIFICATION %s' % ('FairSpec' if liveness else 'Spec'),
-           'INVARIANT PropsHold', 'INVARIANT Bounded', 'INVARIANT Exported']
+           'INVARIANT PropsHold', 'INVARIANT Bounded', 'INVARIANT Exported'] + (['INVARIANT DevNeutral'] if devneutral else [])
     if liveness:
         cfg.append('PROPERTY Terminates')
     cfg += ['CONSTANTS', ' CONFIGS <- MC_CONFIGS', ' NC = %d' % nc, ' MAXB = %d' % maxb, ' MAXM = %d' % maxm,
@@ -71,6 +72,17 @@ def cases_of(out):
         txt = m.group(1).replace('\\"', '"').replace('\\\\', '\\')
         cs.append(json.loads(txt))
     return cs
+
+
+_FAILS = re.compile(r'^"(FAILS|DEVDIFF) (.*)"\s*$', re.M)
+
+
+def fails_of(out):
+    "the JSON payloads printed by a violated PropsHold / DevNeutral invariant"
+    res = []
+    for m in _FAILS.finditer(out):
+        res.append((m.group(1), json.loads(m.group(2).replace('\\"', '"').replace('\\\\', '\\'))))
+    return res
 
 
 def invariant_violation(out):
